@@ -316,6 +316,33 @@ func c17(c *Ctx) {
 			}
 		}
 	}
+	// (3b) the marker is only a marker at the FRONT: stray bytes before a well-formed packet (a stream joined in the
+	// middle, a damaged first marker), a packet whose payload contains the marker bytes, garbage that ends in a
+	// marker - 16 bytes or more that do not begin with 30 31 63 64 are not a packet, whatever follows
+	for i := 0; i < 200; i++ {
+		s := randSpec(uint8(rng.Intn(16)), []int{0, 3, 40}[rng.Intn(3)])
+		pk := s.bytes()
+		var b []byte
+		switch i % 4 {
+		case 0: // 1..20 stray bytes, then a whole packet
+			pre := make([]byte, 1+rng.Intn(20))
+			rng.Read(pre)
+			pre[0] |= 0x80
+			b = append(pre, pk...)
+		case 1: // first marker damaged in one byte, a second whole packet behind it
+			b = append(append([]byte{}, pk...), randSpec(uint8(rng.Intn(16)), 2).bytes()...)
+			b[rng.Intn(4)] ^= 0x40
+		case 2: // garbage of 16+ bytes ending in the marker
+			b = make([]byte, 16+rng.Intn(30))
+			rng.Read(b)
+			b[0] = 0x7e
+			b = append(b, 0x30, 0x31, 0x63, 0x64)
+		default: // a whole packet whose payload is the marker followed by another packet: decoded as ONE packet
+			s.Body = append([]byte{0x30, 0x31, 0x63, 0x64}, randSpec(3, 1).bytes()...)
+			b = s.bytes()
+		}
+		one(b, refRead(b), "marker-not-at-front")
+	}
 	// (4) arbitrary byte strings
 	narb := 3000
 	if !c.Quick() {
